@@ -241,9 +241,59 @@ def verify_depth_param(fn, pname, cycle_names):
                      % (pname, "large" if direction == "up" else "small")) if verdict == "wrong" else \
                     "passes a value of `%s` the rule cannot order" % pname
                 bad.append((nd["o"], "recursive call %s %s" % (nd["o"], why)))
+    verify_depth_param.direction = direction
     if bad:
         return False, bad
     return True, "%d recursive calls pass a changed `%s`" % (ncalls, pname)
+
+
+def thread_depth(comp, verified):
+    """[(caller Func, callee name, why, call node)]: calls inside the cycle that do not pass the caller's own
+    count parameter (coefficient 1, offset not against the direction) in the callee's count position"""
+    from cfg import linform
+    byname = {f.name: f for f in comp}
+    # callee name -> (parameter index, direction)
+    known = {}
+    for f in comp:
+        if f.name in DEPTH_PARAM and f.name in verified:
+            pn = DEPTH_PARAM[f.name]
+            idx = [k for k, v in enumerate(f.params) if f.vars[v]["n"] == pn]
+            if idx:
+                known[f.name] = (idx[0], verified[f.name])
+    out = []
+    work = list(known)
+    seen_edges = set()
+    while work:
+        cal = work.pop()
+        idx, direction = known[cal]
+        for f in comp:
+            pnames = {f.vars[v]["n"]: k for k, v in enumerate(f.params)}
+            for i, nd in enumerate(f.nodes):
+                if nd["k"] != "call" or nd.get("o") != cal or (f.name, i) in seen_edges:
+                    continue
+                seen_edges.add((f.name, i))
+                args = nd["c"][1:]
+                if idx >= len(args):
+                    continue
+                if f.name in known and f.name in DEPTH_PARAM:
+                    continue          # the bounder's own calls were judged by verify_depth_param
+                lf = linform(f, args[idx])
+                terms = [(t, c) for t, c in lf[1].items()]
+                if len(terms) == 1 and terms[0][1] == 1 and terms[0][0] in pnames:
+                    off = lf[0]
+                    if direction == "up" and off < 0 or direction == "down" and off > 0:
+                        out.append((f, cal, "passes its count moved against the bound (%s)" % f.txt(args[idx])[:40], i))
+                        continue
+                    k = pnames[terms[0][0]]
+                    if f.name not in known:
+                        known[f.name] = (k, direction)
+                        work.append(f.name)
+                    elif known[f.name][0] != k:
+                        out.append((f, cal, "passes `%s`, not the parameter that carries the count elsewhere" % terms[0][0], i))
+                else:
+                    out.append((f, cal, "passes `%s` as the count, which is not derived from a count of its own"
+                                % f.txt(args[idx])[:40], i))
+    return out
 
 
 def run(prog, res, prop, rule, roots=None, floor=10, cg=None, only_units=None, known_names=()):
@@ -278,13 +328,16 @@ def run(prog, res, prop, rule, roots=None, floor=10, cg=None, only_units=None, k
         bounders = set()
         notes = []
         partial = {}      # verified guard, but these callees are reached with an unbounded depth
+        guarded = {}      # name -> direction, for every member whose guard was verified
         for f in comp:
             if f.name in DEPTH_PARAM:
                 ok, why = verify_depth_param(f, DEPTH_PARAM[f.name], names)
                 if ok:
-                    verified[f.name] = (ok, why)
+                    verified[f.name] = (ok, why, getattr(verify_depth_param, "direction", None))
+                    guarded[f.name] = verified[f.name][2]
                     bounders.add(f)
                 elif isinstance(why, list):
+                    guarded[f.name] = getattr(verify_depth_param, "direction", None)
                     partial[f] = {c for (c, _w) in why}
                     for (_c, w) in why:
                         if "%s: %s" % (f.name, w) not in notes:
@@ -293,6 +346,14 @@ def run(prog, res, prop, rule, roots=None, floor=10, cg=None, only_units=None, k
                     notes.append("%s: %s" % (f.name, why))
             elif f.name in BY_CONSTRUCTION:
                 bounders.add(f)
+        # the count must survive the trip around the cycle: every member that calls (directly or through other
+        # members) a verified bounder hands on its own count parameter, moved only in the bounder's direction
+        for (caller, callee, why, node) in thread_depth(comp, guarded):
+            res.add(Finding(prop, rule + ".depth-restart", caller.name, "call of %s" % callee, caller.where(node),
+                            "%s is on a recursion cycle that is bounded by a depth parameter, but its call of %s %s: "
+                            "the bound starts over at that call, so nesting through it is unbounded"
+                            % (caller.name, callee, why), unit=caller.unit.display,
+                            advisory=all(n in ADVISORY for n in names)))
         rest = [f for f in comp if f not in bounders]
         sub = sccs_of(cg, {f: {g for g in direct.get(f, ()) if g in rest and
                                (f not in partial or g.name in partial[f])} for f in rest}, rest)
